@@ -274,10 +274,33 @@ def lake_build(targets, timeout=3000):
     return rc, o
 
 
+LAKE_ORACLE = ORACLE
+
+
 def build_oracle():
-    rc, o = lake_build(["oracle"])
-    if rc != 0:
-        raise BuildError("lake build oracle failed:\n" + o[-4000:])
+    """lake build oracle, then a private copy of the executable for this run: another check started in parallel may
+    relink .lake/build/bin/oracle (lake removes the file while doing so) while this one is still using it."""
+    global ORACLE
+    import atexit
+    import shutil
+    with Lock("lake"):
+        rc, o = sh(["lake", "build", "oracle"], cwd=LEAN, timeout=3000)
+        if rc != 0:
+            raise BuildError("lake build oracle failed:\n" + o[-4000:])
+        os.makedirs(BIN, exist_ok=True)
+        for f in os.listdir(BIN):       # copies left behind by runs that were killed
+            m = re.fullmatch(r"oracle\.(\d+)(\.tmp)?", f)
+            if m and not os.path.exists("/proc/" + m.group(1)):
+                try:
+                    os.remove(os.path.join(BIN, f))
+                except OSError:
+                    pass
+        mine = os.path.join(BIN, "oracle.%d" % os.getpid())
+        shutil.copy2(LAKE_ORACLE, mine + ".tmp")
+        os.replace(mine + ".tmp", mine)
+    if ORACLE == LAKE_ORACLE:
+        atexit.register(lambda: os.path.exists(mine) and os.remove(mine))
+    ORACLE = mine
     return ORACLE
 
 
